@@ -89,7 +89,7 @@ structure ColumnsLayout where
 deriving Repr, BEq, DecidableEq
 
 /-- `Columns.__rich_console__` up to `add_row`.  `.ok none` = no renderables (nothing is yielded). -/
-def columnsLayout (o : ColumnsOpts) (measured : List Int) (maxWidth : Int) : Except PyErr (Option ColumnsLayout) :=
+def columnsLayout (v : Variant) (o : ColumnsOpts) (measured : List Int) (maxWidth : Int) : Except PyErr (Option ColumnsLayout) :=
   if measured.isEmpty then .ok none
   else
     match unpackPad o.padding with
@@ -102,7 +102,10 @@ def columnsLayout (o : ColumnsOpts) (measured : List Int) (maxWidth : Int) : Exc
         match o.width with
         | some cwid =>
           if cwid + widthPadding == 0 then .error .zeroDivision
-          else .ok (maxWidth / (cwid + widthPadding)).toNat
+          else
+            -- today: `max_width // (width + padding)`; repaired: `max(1, …)`
+            .ok (if v.columnsZeroCount then (maxWidth / (cwid + widthPadding)).toNat
+                 else max 1 (maxWidth / (cwid + widthPadding)).toNat)
         | none => .ok (searchLoop o.columnFirst widths widthPadding maxWidth (n + 1) n)
       match count with
       | .error e => .error e
